@@ -115,7 +115,7 @@ def mutated_locals(fi):
     return out - set(fi.params) - {'self'}
 
 
-def _collect(fi, inline_depth=8, keep=()):
+def _collect(fi, inline_depth=60, keep=()):
     flow = fi.flow
     effects = []
     cands = []
@@ -264,7 +264,7 @@ def _comp_rename(e):
     return e
 
 
-def local_signatures(fi, params):
+def local_signatures(fi, params, surviving=None, keep=()):
     """Stable names for locals: a hash of the canonical form of their first definition."""
     import hashlib
     flow = fi.flow
@@ -291,6 +291,10 @@ def local_signatures(fi, params):
         if v is None or not isinstance(v, ast.AST) or isinstance(v, (ast.FunctionDef, ast.ClassDef, ast.Import, ast.ImportFrom)):
             body = ('opaque', d.kind, name)
         else:
+            try:
+                v = flow.inline(v, d.stmt, stop=keep) if d.stmt is not None and d.kind in ('assign', 'aug') else v
+            except AnalysisError:
+                pass
             v = _comp_rename(v)
             rn = {}
             for n in ast.walk(v):
@@ -305,6 +309,8 @@ def local_signatures(fi, params):
     # disambiguate equal signatures by order of first definition
     seen = {}
     for name in sorted(first, key=lambda n: first[n][0]):
+        if surviving is not None and name not in surviving:
+            continue          # fully inlined temporaries never appear in an effect: they must not take a name away
         h = sigs[name]
         k = seen.get(h, 0)
         seen[h] = k + 1
@@ -317,7 +323,14 @@ def effects(fi, keep=(), use_semiring=True):
     """Canonical effect list of a function."""
     effs = _collect(fi, keep=keep)
     params = [p for p in fi.params]
-    rename = local_signatures(fi, params)
+    surviving = set()
+    for e in effs:
+        for x in [e.target, e.value] + [y for c in e.ctx for y in c[1:]]:
+            if isinstance(x, ast.AST):
+                surviving |= {n.id for n in ast.walk(x) if isinstance(n, ast.Name)}
+        if e.kind.startswith(('bind:', 'aug:')):
+            surviving.add(e.kind.split(':', 1)[1])
+    rename = local_signatures(fi, params, surviving, set(keep) | mutated_locals(fi))
 
     def cz(x):
         if x is None:
